@@ -5,6 +5,7 @@ import json, sys
 pid, wt, out, n = sys.argv[1], sys.argv[2], sys.argv[3], int(sys.argv[4]) if len(sys.argv) > 4 else 3
 wave2 = len(sys.argv) > 5 and sys.argv[5] == "wave2"
 wave3 = len(sys.argv) > 5 and sys.argv[5] == "wave3"
+wave4 = len(sys.argv) > 5 and sys.argv[5] == "wave4"
 for l in open('/verif/properties.jsonl'):
     p = json.loads(l)
     if p['id'] == pid:
@@ -43,7 +44,18 @@ Your task: produce {n} different, independent source changes to the library (fil
  is now read before instead of after an await (stale), an exception is now raised outside the try that used to catch it, a condition was 'simplified'
  wrongly for one operand combination, the constant is shared and mutated, the reordering matters for one interleaving, etc. The semantic change must be
  small and hard to spot inside an otherwise faithful refactoring (the diff may be 10-40 lines because of the refactoring itself).
-""" if wave3 else "") + f"""
+""" if wave3 else "") + ("""
+ This is a FOURTH round. Every change of this round must be DISGUISED AS A LARGER RESTRUCTURING (15-60 changed lines) of the kind a maintainer does
+ when tidying a long function, using at least one of these idioms: a `try/finally` replaced by a small context-manager class (`with _Scope(self, x):`)
+ or the reverse; a loop body moved into a generator helper that the original loop now iterates (`for a, b in self._iter_x(...)`) or `list(helper())`;
+ a phase of the function moved into a private helper that returns an Optional / a sentinel / a tuple that the caller unpacks; a boolean flag replaced
+ by control flow or by a collected list, or the reverse; several copy-pasted statements replaced by a loop over a constant tuple of (tag, value) rows;
+ an if/elif chain replaced by a class-level table; row indexing `row[3]` replaced by tuple unpacking; `x = start; x += n` merged into one expression;
+ guard clauses <-> nesting. The restructuring must look faithful and BE faithful everywhere except for ONE small semantic slip that breaks the
+ property - e.g. the context manager's exit does not run on one path (returns True / is entered too late), the generator is consumed eagerly or its
+ `finally`/tail runs at a different time, the helper's sentinel collides with a legal value, one row of the constant table is wrong or in the wrong order,
+ the unpacked tuple has two fields swapped, the flag is now set on one branch too few, a guard clause returns before a required side effect.
+""" if wave4 else "") + f"""
 
 For each change k = 1..{n} create the directory {out}/m<k>/ containing:
   patch.diff  - `git diff` of the change against the clean worktree (library sources only)
